@@ -458,9 +458,12 @@ impl<E: Effect, R: CommandReceiver<E>, S: EventSender<E>> Worker<E, R, S> {
             return Ok(());
         }
 
-        // Check that the process is sleeping (it's persistent and has a successful result)
+        // Check that the process is sleeping (it's persistent and has a successful result). A
+        // client that enters a line while the previous one is still running gets no new line
+        // started - like resuming a failed process, that is its mistake, not a reason to end
+        // this worker's loop with every other process on it.
         if !process.persistent || !matches!(&process.result, Some(Ok(_))) {
-            return Err(EnvironmentError::ProcessNotSleeping(id));
+            return Ok(());
         }
 
         // Push the previous result onto the stack for continuations
